@@ -40,7 +40,7 @@ pub(crate) mod kani_call_pattern {
         }
     }
 
-    //@ props=C02 tier=quick fns=find_responder_by_call_index bounds="S<=4 segments (symbolic S in 1..=4); repeat counts n_i: all values < 2^60 INCLUDING 0 (duplicate start indexes); call index k: all 2^64"
+    //@ props=C02,C04 tier=quick fns=find_responder_by_call_index bounds="S<=4 segments (symbolic S in 1..=4); repeat counts n_i: all values < 2^60 INCLUDING 0 (duplicate start indexes); call index k: all 2^64"
     /// C02(a): chosen responder = first i with n_1+..+n_i > k, else the last one.
     #[kani::proof]
     #[kani::unwind(6)]
